@@ -32,6 +32,18 @@ import (
 )
 
 const progA = `
+function fmts(   s, re, parts, n, x, t) {
+  printf "c1=[%c] c2=[%c] c3=[%5c] c4=[%-3c|] c5=[%.1c] c6=[%c]\n", 233, "\303\251x", 8364, "\342\202\254uro", 200, 65
+  printf "s=[%.2s] [%5s] [%-4s|] d=[%d] [%5.3d] i=[%i] o=[%o] x=[%x] X=[%X] u=[%u] e=[%.2e] f=[%8.3f] g=[%g] G=[%G] pct=[%%] star=[%*d] [%.*f]\n", "\303\251\303\251x", "ab", "\303\251", 42.9, 7, -3, 8, 255, 255, 3, 12345.678, 3.14159, 0.0001, 1e10, 4, 7, 2, 2.71828
+  s = sprintf("%c%c", 200, "\303\251"); printf "sp=[%s] len=%d\n", s, length(s)
+  re = "\303\251+."; t = "a\303\251\303\251bc"
+  printf "dyn match=%d RSTART=%d RLENGTH=%d\n", match(t, re), RSTART, RLENGTH
+  n = split(t, parts, re); printf "split=%d [%s] [%s]\n", n, parts[1], parts[2]
+  gsub(re, "<&>", t); printf "gsub=[%s] tilde=%d\n", t, ("x\303\251y" ~ re)
+  printf "index=%d substr=[%s] length=%d\n", index("\303\251y", "y"), substr("\303\251yz", 2, 1), length("\303\251yz")
+  x = 0.1234567; printf "conv=[%s]\n", x ""
+  print x, "ofmt"
+}
 function f(a, arr,   i) {
   arr[a] = a
   if (mode == "err_fn") return 1/zero
@@ -102,6 +114,7 @@ BEGIN {
   if (mode == "p_deep") printf "deep=%d\n", deep(990)
   if (mode == "p_long") { for (i = 0; i < 3000; i++) sum += i; printf "sum=%d\n", sum }
   if (mode == "p_err") { printf "before\n"; x = 1/zero }
+  if (mode == "fmt" || mode == "p_fmt") fmts()
 }
 mode == "bad_FS" { FS = "a(" }
 mode == "bad_RS" { RS = "a(" }
@@ -220,9 +233,9 @@ type Case struct {
 
 var histModes = []string{"exit", "err_fn", "err_forin", "cancel_loop", "cancel_fn", "cancel_forin", "err_deep",
 	"setvars", "setre", "setmodes", "io", "getline_begin", "getline_stdin", "pipe_in",
-	"bad_FS", "bad_RS", "bad_NF", "bad_ARGC", "bad_INPUTMODE", "bad_OUTPUTMODE", "hdr", "count", "err_main", "range", "nextfile", "endset"}
+	"bad_FS", "bad_RS", "bad_NF", "bad_ARGC", "bad_INPUTMODE", "bad_OUTPUTMODE", "fmt", "hdr", "count", "err_main", "range", "nextfile", "endset"}
 var histModesB = []string{"exit", "err_forin", "cancel_loop", "setvars", "getline_stdin", "bad_FS", "bad_RS", "hdr", "count", "err_main", "endset"}
-var probeModes = []string{"p_all", "p_run", "p_at_begin", "p_at_main", "p_at_end", "p_getline_nf", "p_deep", "p_streams", "p_long", "p_err"}
+var probeModes = []string{"p_all", "p_run", "p_at_begin", "p_at_main", "p_at_end", "p_getline_nf", "p_deep", "p_streams", "p_long", "p_err", "p_fmt"}
 var probeModesB = []string{"p_all", "p_run", "p_at_begin", "p_at_main", "p_at_end", "p_getline_nf", "p_streams", "p_long", "p_err"}
 
 var inputs = []string{"", "a,b\n1,2\n3,4\n", "x y z\ns\nm\ne\nw\n", "b,a,c\n\"q,1\",2,3\n", "one\n", "a\tb\n5\t6\n", "1,2,3\n", "k:v;k2:v2;", "#c\na,b\n7,8\n"}
@@ -593,6 +606,24 @@ func genCases(o hx.Opts, r *hx.Rand) []Case {
 			}
 		}
 	}
+	for _, hc := range []bool{false, true} {
+		for _, pc := range []bool{false, true} {
+			for v := 0; v < 4; v++ {
+				hs := RunSpec{Mode: "fmt", Input: "a b\n", Chars: hc}
+				ps := RunSpec{Mode: "p_fmt", Input: "a b\n", Chars: pc}
+				switch v {
+				case 1:
+					hs.Vars = []string{"CONVFMT", "%.2g", "OFMT", "%.3g"}
+				case 2:
+					ps.Vars = []string{"CONVFMT", "%.2g", "OFMT", "%.3g"}
+				case 3:
+					hs.OutputMode, hs.InputMode, ps.OutputMode = 1, 1, 2
+				}
+				cs = append(cs, Case{Prog: "A", History: []RunSpec{hs}, ResetVars: true, ResetRand: true, Probe: ps})
+				cs = append(cs, Case{Prog: "A", History: []RunSpec{hs, hs}, ResetVars: false, ResetRand: false, Probe: ps})
+			}
+		}
+	}
 	for _, h := range []string{"exit", "setvars", "err_forin", "count"} {
 		for _, p := range []string{"p_all", "p_run"} {
 			for _, full := range []bool{true, false} {
@@ -654,6 +685,15 @@ func comparable(c Case) bool {
 		if strings.Contains(a, "=") && !p.NoArgVars {
 			return false
 		}
+	}
+	if p.Mode == "p_fmt" {
+		// depends on CONVFMT / OFMT / OFS / ORS: comparable when no earlier run touched a variable
+		for _, h := range c.History {
+			if h.Mode != "fmt" || len(h.Vars) != 0 || len(h.Args) != 0 {
+				return false
+			}
+		}
+		return true
 	}
 	switch p.Mode {
 	case "p_all":
@@ -1111,7 +1151,7 @@ func setupFiles() string {
 func main() {
 	o := hx.ParseFlags()
 	rep := hx.NewReport("C14", o.Seed, o.Tier)
-	rep.Rule = "systematic: every history mode (exit, error in function / for-in / deep recursion / main rule, cancelled context in loop / function / for-in, assignments to all special variables, regex FS/RS, INPUTMODE/OUTPUTMODE, open file streams, getline, getline < \"-\" with stdin data left over, cmd | getline left open, a run-time error raised while assigning FS / RS / NF / ARGC / INPUTMODE / OUTPUTMODE, ExecuteContext with a live context cancelled after the run followed by a long / failing context-free probe, CSV header run, range pattern, nextfile, $0 assigned in END) x every probe (incl. p_streams: getline < \"-\" / file / rewritten output file / command again) x {full reset, no reset} on two programs, Config.OpenFile nil / os.OpenFile / deny-all differing between earlier run and probe, plus random histories of 1-4 runs with random Config (modes, header, separators, Args incl. files / var=value / missing file, Vars, Environ, sandbox flags, Chars, newline mode, Execute vs ExecuteContext, rejected configurations) and random ResetVars/ResetRand; every field of interp.Config takes at least two values incl. the nil/zero one within histories (Environ nil = process environment with a marker variable vs slice, Stdin/Output/Error nil = os.Stdin/Stdout/Stderr pointed at files, ShellCommand default vs /bin/echo, OpenFile nil/os/deny, Funcs on a third program, Args/Argv0/NoArgVars/Vars/Chars/modes/flags/newline); a run on a reused interpreter must never panic (checked also when outcomes are not comparable); distinct = distinct (program, history modes+input modes+ctx+args, resets, probe mode+input mode+ctx); non-trivial = at least one run before the probe"
+	rep.Rule = "systematic: every history mode (exit, error in function / for-in / deep recursion / main rule, cancelled context in loop / function / for-in, assignments to all special variables, regex FS/RS, INPUTMODE/OUTPUTMODE, open file streams, getline, getline < \"-\" with stdin data left over, cmd | getline left open, the same printf/sprintf formats (every conversion incl. %c with width/precision/*) and dynamic regexes in the earlier run and in the probe under different Chars / output modes / CONVFMT-OFMT, a run-time error raised while assigning FS / RS / NF / ARGC / INPUTMODE / OUTPUTMODE, ExecuteContext with a live context cancelled after the run followed by a long / failing context-free probe, CSV header run, range pattern, nextfile, $0 assigned in END) x every probe (incl. p_streams: getline < \"-\" / file / rewritten output file / command again) x {full reset, no reset} on two programs, Config.OpenFile nil / os.OpenFile / deny-all differing between earlier run and probe, plus random histories of 1-4 runs with random Config (modes, header, separators, Args incl. files / var=value / missing file, Vars, Environ, sandbox flags, Chars, newline mode, Execute vs ExecuteContext, rejected configurations) and random ResetVars/ResetRand; every field of interp.Config takes at least two values incl. the nil/zero one within histories (Environ nil = process environment with a marker variable vs slice, Stdin/Output/Error nil = os.Stdin/Stdout/Stderr pointed at files, ShellCommand default vs /bin/echo, OpenFile nil/os/deny, Funcs on a third program, Args/Argv0/NoArgVars/Vars/Chars/modes/flags/newline); a run on a reused interpreter must never panic (checked also when outcomes are not comparable); distinct = distinct (program, history modes+input modes+ctx+args, resets, probe mode+input mode+ctx); non-trivial = at least one run before the probe"
 	out := o.Out
 	if out != "" && !strings.HasPrefix(out, "/") {
 		wd, _ := os.Getwd()
